@@ -119,6 +119,7 @@ type Tier struct {
 	Skip          bool             `json:"skip"`
 	WallS         int              `json:"wall_s"`
 	Sweep         map[string][]int64 `json:"sweep"`
+	Families      []map[string]int64 `json:"families"`
 }
 
 type Group struct {
@@ -171,9 +172,10 @@ func cmdRun(args []string) int {
 	workers := fs.Int("workers", 8, "")
 	unwind := fs.Int("unwind", 256, "")
 	maxPaths := fs.Int("max-paths", 200000, "")
-	solver := fs.String("solver", "z3", "")
+	solver := fs.String("solver", "z3-new", "")
 	timeout := fs.Int("timeout-ms", 10000, "")
 	preempt := fs.Int("preempt", -1, "")
+	fallback := fs.Int("fallback-ms", 60000, "")
 	params := fs.String("params", "", "k=v,k=v")
 	verbose := fs.Bool("v", false, "")
 	fs.Parse(args)
@@ -195,6 +197,7 @@ func cmdRun(args []string) int {
 	cfg.Solver = *solver
 	cfg.TimeoutMs = *timeout
 	cfg.PreemptBound = *preempt
+	cfg.FallbackMs = *fallback
 	cfg.Params = map[string]int64{}
 	if *params != "" {
 		for _, kv := range strings.Split(*params, ",") {
@@ -255,7 +258,7 @@ func main() {
 // selftest: solver plumbing and term semantics (evaluator vs solver) on a fixed set of identities.
 func cmdSelftest() int {
 	ts := NewTermStore()
-	for _, kind := range []string{"z3"} {
+	for _, kind := range []string{"z3-new", "z3", "cvc5"} {
 		s, err := NewSolver(kind, 10000)
 		if err != nil {
 			fmt.Println("selftest: cannot start", kind, err)
